@@ -11,7 +11,7 @@ BIN_NAME = {'Lt': 'lt', 'Le': 'le', 'Gt': 'gt', 'Ge': 'ge', 'Eq': 'eq', 'Ne': 'n
 def canon(s, depth=0):
     """canonical text of a Sym: params positional (self kept), refs/derefs transparent,
     gt/ge rewritten to lt/le, eq operands sorted"""
-    if depth > 14:
+    if depth > 40:
         return '…'
     t = s[0]
     if t == 'param':
